@@ -31,7 +31,7 @@ def real_lines(t, keepends=True):
 def gen_text(rnd):
     n = rnd.randint(1, 8); nl = rnd.choice(("\n", "\n", "\r\n"))
     lines = [rnd.choice(WORDS) for _ in range(n)]
-    return nl.join(lines) + (nl if rnd.random() < 0.6 else "")
+    return ("\ufeff" if rnd.random() < 0.2 else "") + nl.join(lines) + (nl if rnd.random() < 0.6 else "")      # (a byte order mark in front of line 1 is content like any other: it stays)
 def gen_xml(rnd):
     parts = ['<?xml version="1.0" encoding="utf-8"?>\n']
     dt = rnd.choice(("", "", "<!DOCTYPE root>\n", '<!DOCTYPE root SYSTEM "r.dtd">\n', '<!DOCTYPE root PUBLIC "-//X//Y" "r.dtd">\n'))
